@@ -239,6 +239,10 @@ class Body:
                 rv = st['rv']
                 if rv['k'] == 'discr' and not rv['pl']['p']:
                     copies.append((st['dst']['l'], rv['pl']['l']))
+                elif rv['k'] == 'discr' and rv['pl']['p'] == ['*']:
+                    copies.append((st['dst']['l'], rv['pl']['l']))          # `match &opt { Some(x) => .. }`
+                elif rv['k'] == 'ref' and not rv.get('mut') and not rv['pl']['p']:
+                    copies.append((st['dst']['l'], rv['pl']['l']))          # the reference that is matched on
                 elif rv['k'] == 'use' and 'l' in rv['o'] and not rv['o']['p']:
                     copies.append((st['dst']['l'], rv['o']['l']))
                 elif rv['k'] == 'un' and rv.get('op') == 'Not' and 'l' in rv['o'] and not rv['o']['p']:
@@ -292,10 +296,18 @@ class Body:
                     new = '#1' if str(o.get('v', o.get('i'))) == 'true' else '#0'
             elif rv['k'] == 'discr':
                 pl = rv['pl']
+                fd = dict(facts)
+                v = None
                 if not pl['p']:
-                    v = dict(facts).get(pl['l'])
-                    if v in self._VIDX:
-                        new = '#%d' % self._VIDX[v]
+                    v = fd.get(pl['l'])
+                elif pl['p'] == ['*']:
+                    r_ = fd.get(pl['l'])
+                    if isinstance(r_, str) and r_.startswith('&'):
+                        v = fd.get(int(r_[1:]))
+                if v in self._VIDX:
+                    new = '#%d' % self._VIDX[v]
+            elif rv['k'] == 'ref' and not rv.get('mut') and not rv['pl']['p']:
+                new = '&%d' % rv['pl']['l']
             elif rv['k'] == 'un' and rv.get('op') == 'Not' and 'l' in rv['o'] and not rv['o']['p']:
                 v = dict(facts).get(rv['o']['l'])
                 if v in ('#0', '#1'):
